@@ -171,7 +171,7 @@ func S5Retention(p *core.Program, a *spec.Anchors, r *core.Report) {
 	r.Count("S5.stores_examined", nStores)
 	r.Count("S5.closures_examined", nClosures)
 	r.Count("S5.returns_examined", nReturns)
-	r.Min("S5.stores_examined", 150)
+	r.Min("S5.stores_examined", 60)
 	r.Min("S5.closures_examined", 15)
 
 	// discharge
